@@ -96,6 +96,15 @@ def check_vector(v):
             shape = "int64-min" if any(x == -2 ** 63 for x in vals) else ("wide" if any(len(x[1]) >= 15 for x in batch) else "other")
             bad.append({"what": "int_lists_to_strings does not join the canonical texts", "tags": {"op": "int_lists_to_strings", "shape": shape},
                         "vector": v, "expected": wj, "observed": o})
+        # the same rows presented as not-yet-flattened row selections of another ragged array (reversed, permuted, masked)
+        for form, mk in (("reversed", lambda: RaggedArray([vals[:1], vals])[::-1]),
+                         ("permuted", lambda: RaggedArray([vals[:1], [7, 77], vals])[[2, 0]]),
+                         ("masked", lambda: RaggedArray([[123456], vals, [5], vals[:1]])[np.array([False, True, False, True])])):
+            o = outcome(lambda: int_lists_to_strings(mk()).tolist())
+            n += 1
+            if o != ("ok", wj):
+                bad.append({"what": "int_lists_to_strings of a row selection does not join the canonical texts", "tags": {"op": "int_lists_to_strings", "shape": "view-" + form},
+                            "vector": v, "expected": wj, "observed": o})
         # and back: parsing the canonical text gives the value
         o = outcome(lambda: [int(x) for x in str_to_int(bnp.as_encoded_array(want)).tolist()])
         n += 1
